@@ -50,11 +50,28 @@ static long read_lost_reports(int *nreports)
 	return sum;
 }
 
+static long n_bad_ctl;
 static long n_msgs, n_delivered, n_dropped_accounted, n_rounds, n_ctl_ops, n_backlog_cases, n_reinit, n_ctl_before_start;
 static char bigpad[4200];
 
+/* a case that does not finish: producer, logging thread or qb_log_fini stuck.  Generous (a case takes seconds).  A thread
+ * of its own, not a signal: a producer spinning on a lock inside a sanitizer run-time never gets to run a handler */
+static long case_started, case_no = -1;   /* atomics: read by the watchdog thread */
+static void *watchdog(void *a)
+{
+	(void)a;
+	for (;;) {
+		struct timespec ts = { 1, 0 }; nanosleep(&ts, NULL);
+		long st = __atomic_load_n(&case_started, __ATOMIC_RELAXED); if (st && (long)time(NULL) - st > 150) {
+			char m[400]; int n = snprintf(m, sizeof m, "V {\"key\":\"logt:case-does-not-finish\",\"case\":%ld,\"seed\":0,\"detail\":\"no end of the case after 150 s (producer, logging thread or qb_log_fini stuck)\",\"desc\":\"watchdog\"}\n", __atomic_load_n(&case_no, __ATOMIC_RELAXED));
+			if (write(1, m, (size_t)n) < 0) {} _exit(3); }
+	}
+	return NULL;
+}
 static void run_case(long kase)
 {
+	{ static int wd_started; if (!wd_started) { wd_started = 1; pthread_t wt; pthread_create(&wt, NULL, watchdog, NULL); } }
+	__atomic_store_n(&case_no, kase, __ATOMIC_RELAXED); __atomic_store_n(&case_started, (long)time(NULL), __ATOMIC_RELAXED);
 	vprng_t r; vp_seed(&r, vp.seed, (uint64_t)kase);
 	int rounds = vp_chance(&r, 1, 3) ? 2 : 1;
 	/* --mode finirace: very many short init..fini rounds of 1-4 messages on a loaded machine: qb_log_fini() arrives while
@@ -126,13 +143,17 @@ static void run_case(long kase)
 			if (vp_chance(&r, 1, 40)) {
 				/* benign control operations while the logging thread is busy */
 				int i = (int)vp_u(&r, (uint32_t)nt); n_ctl_ops++;
-				uint32_t which = vp_u(&r, 5);
+				uint32_t which = vp_u(&r, 7);
 				if (cno + 24 < sizeof ctl_note) cno += (size_t)snprintf(ctl_note + cno, sizeof ctl_note - cno, "op%u@#%d/slot%d ", which, s, slot[i]);
 				switch (which) {
 				case 0: qb_log_format_set(slot[i], vp_chance(&r, 1, 2) ? "%b" : "[%p] %b"); break;
 				case 1: qb_log_ctl(slot[i], QB_LOG_CONF_ELLIPSIS, (int)vp_u(&r, 2)); break;
 				case 2: qb_log_ctl(slot[i], QB_LOG_CONF_MAX_LINE_LEN, 4096); break;
 				case 3: (void)qb_log_ctl(slot[i], QB_LOG_CONF_STATE_GET, 0); break;
+				case 5: { /* refused control operations (bad value, unknown item) must leave everything as it was, the logging thread included */
+					static const int BAD[] = { 0, -1, 4097, 100000 }; int rcb = qb_log_ctl(slot[i], QB_LOG_CONF_MAX_LINE_LEN, BAD[vp_u(&r, 4)]); n_bad_ctl++;
+					if (rcb == 0) vp_violation("logt:invalid-control-operation-accepted", "MAX_LINE_LEN out of range returned 0"); break; }
+				case 6: { int rcb = qb_log_ctl(slot[i], (enum qb_log_conf)(40 + vp_u(&r, 50)), 1); n_bad_ctl++; if (rcb == 0) vp_violation("logt:invalid-control-operation-accepted", "unknown configuration item returned 0"); break; }
 				default: qb_log_filter_ctl(slot[i], QB_LOG_FILTER_ADD, QB_LOG_FILTER_FILE, "nomatch.c", LOG_TRACE); break;
 				}
 			}
@@ -215,7 +236,7 @@ int main(int argc, char **argv)
 	vp_count("messages_logged", n_msgs); vp_count("logger_invocations", n_delivered); vp_count("drops_reported_and_matched", n_dropped_accounted);
 	vp_count("init_fini_rounds", n_rounds); vp_count("reinit_rounds", n_reinit); vp_count("control_ops_while_busy", n_ctl_ops);
 	vp_count("backlog_pressure_rounds", n_backlog_cases); vp_count("control_before_thread_start", n_ctl_before_start);
-	vp_count("cases_run_on_a_loaded_machine", n_loaded_cases);
+	vp_count("cases_run_on_a_loaded_machine", n_loaded_cases); vp_count("refused_control_operations_while_busy", n_bad_ctl);
 	vp_finish();
 	return 0;
 }
